@@ -6,6 +6,7 @@ import SdJwt.Lemmas.EndToEnd
 import SdJwt.Lemmas.Example
 import SdJwt.Lemmas.Redact
 import SdJwt.Lemmas.RedactBound
+import SdJwt.Lemmas.CodecL
 /-!
 # C02 — selective disclosure end to end: the verifier sees the original minus the redacted
 
@@ -229,3 +230,37 @@ theorem C02_build_bound (rt : Rt) (jwt : String) (ps : List PathEntry) (R : List
                   sdHash := rt.hash "sha-256" (assemble jwt (keptDisclosures ps R)) }) :=
   holder_build_bound rt jwt ps R p nonce now a b sig payload hseg hclaims halg hcnf
 
+
+
+/-- **C02 down to the bytes of the disclosures.** `C02_redact` with the disclosure strings written
+out as the crate makes them (base64url of the JSON text of `[salt, name, value]`, digest = base64url
+of SHA-256 over the string; `Impl/Codec.lean`): issuer → holder → `redact(R)` → `build` → verifier
+returns the issued claims minus exactly the redacted disclosable claims and everything inside them.
+Of the byte level only the JSON text round trip is assumed (`hc`); that the strings decode to the
+disclosures they were made from, hash to the embedded digests and hold no `~` is proved
+(`wire_hyps`). -/
+theorem C02_redact_bytes (c : Codec) (salt : Nat → String)
+    (decodeClaims : String → Option J) (jwtDecode : String → Outcome (J × J))
+    (kbDecode : String → J → Outcome (J × J))
+    (paths : List String) (addr : List (List String × String)) (ms : MMems) (Tn : MJ)
+    (ds : List SDisc) (decoys : Option (List String)) (jwt : String) (header : J)
+    (strs : List String) (R : List String) (policy : Bool)
+    (wf : (MJ.obj ms none).WF) (hplain : (MJ.obj ms none).digests = [])
+    (hk1 : "_sd_alg" ∉ ms.keys) (hk2 : "cnf" ∉ ms.keys)
+    (hp : ParsedAll paths addr)
+    (h : markAll (c.digestFn "sha-256" salt) 0 addr (.obj ms none) = some (Tn, ds)) (hne : ds ≠ [])
+    (hdec : ∀ l, decoys = some l → l.Nodup ∧ (∀ g ∈ l, g ∉ Tn.digests))
+    (hsig : ∀ payload dsrc,
+      encode (MJ.obj ms none).payload paths (c.digestFn "sha-256" salt) decoys none = .ok (payload, dsrc) →
+      jwtDecode jwt = .ok (header, payload))
+    (hc : ∀ j, c.parse (c.render j) = some j)
+    (hperm : strs.Perm (c.wireStrs salt 0 ds))
+    (hnd : (strs.map (c.hash "sha-256")).Nodup)
+    (hj : '~' ∉ jwt.toList) :
+    ∃ ps, Holder.verify (c.rt decodeClaims jwtDecode kbDecode) (assemble jwt strs) =
+        .ok (header, expectedClaims ms none, ps) ∧
+      Verifier.verify (c.rt decodeClaims jwtDecode kbDecode) (assemble jwt (keptDisclosures ps R)) policy =
+        .ok (header, Tn.project (notRedacted Tn R)) := by
+  obtain ⟨a1, a2, a3⟩ := wire_hyps c salt decodeClaims jwtDecode kbDecode addr _ Tn ds strs h hc hperm
+  exact redact_verify_issued (c.rt decodeClaims jwtDecode kbDecode) (c.digestFn "sha-256" salt) paths addr ms
+    Tn ds decoys jwt header strs R policy wf hplain hk1 hk2 hp h hne hdec hsig a1 hnd a2 hj a3
